@@ -422,6 +422,11 @@ func timedCopy(clientAddr net.Addr, clientConn net.PacketConn, targetConn *natco
 			}
 
 			debugUDPAddr(l, "Got response.", clientAddr, slog.Any("target", raddr))
+			// A SOCKS address cannot carry an IPv6 zone. Drop it, otherwise the source
+			// is encoded as a domain name that can be longer than maxAddrLen.
+			if udpAddr, ok := raddr.(*net.UDPAddr); ok && udpAddr.Zone != "" {
+				raddr = &net.UDPAddr{IP: udpAddr.IP, Port: udpAddr.Port}
+			}
 			srcAddr := socks.ParseAddr(raddr.String())
 			addrStart := bodyStart - len(srcAddr)
 			// `plainTextBuf` concatenates the SOCKS address and body:
